@@ -38,6 +38,7 @@ func TestMain(m *testing.M) {
 	evid.Assume("the stored key of a packet is computed with the exported ParsePacketV4/V6 and ClassifyPacketDirectionV4/V6 (stored = Reverse(hash) iff classified 'reverts'); these are verified by C19 and C22. "+
 		"For decisive conversations the generator checks that every packet of either direction yields the same stored key",
 		"for non-decisive conversations (private address pair each) the record may be stored under the key of either orientation; exactly one of the two records must exist per interval and hold all packets of both directions",
+		"conversations of protocols without ports (ICMP, other protocols) get a private address pair as well: their flow key is the address pair, so two of them on one host pair are a single conversation for the flow log",
 		"a packet type equal to PacketOutgoing counts as sent, every other value as received (slimcap's documented meaning, Packet.IsInbound)",
 		"a missing block for an interval is treated like an empty block; block timestamps are the scheduled instants (multiples of 300 s of the bubble clock) and now+1 s for Close",
 		"schedule ownership: packet delivery, status calls, live queries and the instants of write-outs are owned (synctest); inside a write-out the order of the manager's own goroutines is left to the Go scheduler",
